@@ -71,6 +71,7 @@ type Got struct {
 type Case struct {
 	Lits    []string `json:"lits"`   // sfunc: argument literals as script source text
 	Expect  string   `json:"expect"` // sfunc: literal the result is compared with by ===
+	Pre     string   `json:"pre"`    // sfunc: statements run before the call
 	K       string   `json:"k"`
 	Params  []string `json:"params"`
 	Ret     string   `json:"ret"`
@@ -601,7 +602,9 @@ func runCase(c Case) (o Obs) {
 		}
 		okSeen, okVal = false, false
 		uncaught = 0
-		src := "c17_ok(" + name + "(" + strings.Join(c.Lits, ", ") + ") === " + c.Expect + ");\n"
+		// "pre": statements run first (e.g. `$x = 0.0; $x = -0.0;`: the argument is then the variable $x,
+		// which has a history)
+		src := c.Pre + "c17_ok(" + name + "(" + strings.Join(c.Lits, ", ") + ") === " + c.Expect + ");\n"
 		prog, acl := sparser.ParseString(src, "c17s.zy")
 		if acl != nil {
 			return Obs{Out: "panic", Msg: "parse: " + acl.AsString()}
